@@ -10,7 +10,7 @@ import gen, pipeline, model, impl, shex_text, shacl_text, findings as F, oracle
 from props import base
 from shexer import consts as C
 
-PROPS_MODULES = ["ShexerModel.Props.C11"]
+PROPS_MODULES = ["ShexerModel.Props.C11", "ShexerModel.Props.GenStrTune"]
 DEPS = ["min_occurs_from_cardinality", "max_occurs_from_cardinality", "MACRO_MAPPING", "cardinality_representation"]
 replay = base.replay
 SHNS = "http://www.w3.org/ns/shacl#"
